@@ -114,3 +114,28 @@ package tcp
 //@   requires p != nil
 //@   modifies nothing
 //@   ensures @the-current-configuration result == p.cfg
+
+// ---- C09: starting and stopping a TCP processor: the monitor and the listener of this very processor are
+// started / stopped, and Stop waits for the serve goroutine ---------------------------------------------------
+
+//@ func (*tcpProc).Start
+//@   prop C09
+//@   requires p != nil
+//@   modifies all
+//@   callpre Monitor).Start @the-health-monitor-of-this-processor-is-started arg0 == p.hm
+//@   callpre Add @one-unit-for-the-serve-goroutine arg0 == p.wg && arg1 == 1
+
+//@ func (*tcpProc).Start$1
+//@   prop C09
+//@   requires deref(p) != nil
+//@   modifies all
+//@   callpre Serve @the-listener-of-this-processor-is-served arg0 == deref(p).ln
+//@   callpre Done @the-unit-is-given-back-once-serving-has-ended arg0 == deref(p).wg
+
+//@ func (*tcpProc).Stop
+//@   prop C09
+//@   requires p != nil
+//@   modifies all
+//@   callpre Monitor).Stop @the-health-monitor-of-this-processor-is-stopped arg0 == p.hm
+//@   callpre Listener).Stop @the-listener-of-this-processor-is-stopped arg0 == p.ln
+//@   callpre Wait @stop-waits-for-the-serve-goroutine arg0 == p.wg
